@@ -476,7 +476,7 @@ def finish(res, checker_cmd, assumptions=()):
     exit_code = 0
     printed = set()
     # in-domain failing inputs first; report "no-failing-input-found" only when there is none
-    have_input = any(v['found_input'] for v in res.violations)
+    have_input = any(v['found_input'] and (prop, v['signature']) not in known_sigs for v in res.violations)
     nviol = 0
     for v in res.violations:
         if have_input and not v['found_input']:
